@@ -1,7 +1,7 @@
 """E1: panic-site inventory over a reachable instance set, automatic guard discharge
 (G1-G5), reviewed dispositions, known findings."""
 import re, tomllib, os, collections
-from .facts import Facts, fmt_sym, fmt_lit, NEG
+from .facts import Facts, fmt_sym, fmt_lit, NEG, deref
 from .mirdb import strip_generics, Loc
 from .report import VERIF
 
@@ -9,6 +9,9 @@ PANIC_RT = re.compile(r'^(core|std)::panicking::|^(std|core)::rt::(begin_panic|p
 WIDE = {'u64', 'i64', 'usize', 'isize', 'u128', 'i128'}
 STD_CRATES = {'core', 'std', 'alloc'}
 PEEL_VARIANT = re.compile(r'^(std|core)::(option::Option|result::Result)::(as_ref|as_mut|as_deref|as_deref_mut|clone|cloned|copied|as_pin_ref|as_pin_mut)$|^<(std|core)::(option::Option|result::Result)<.*> as (std|core)::clone::Clone>::clone$|^(std|core)::clone::Clone::clone$')
+
+
+NONEMPTY_SOME = re.compile(r'(Vec|VecDeque)::(pop|pop_front|pop_back|front|back|front_mut|back_mut)$|^(core|std)::slice::(first|last|first_mut|last_mut|split_first|split_last)$')
 
 
 class Site:
@@ -202,10 +205,18 @@ def try_auto(ctx, site):
                             break
             if h:
                 return True, 'G1 %s known: %s' % (want, _h(b, h))
+            if want == 'Some' and x[0] == 'call' and NONEMPTY_SOME.search(x[1]) and x[2]:
+                # pop()/first()/last() of a container known to be non-empty at the time of that call
+                ln = ('len', deref(x[2][0]))
+                l2 = F.literals_at(x[3])
+                z = ('k', '0', 'usize')
+                h = F.cmp_holds(l2, 'gt', ln, z) or F.cmp_holds(l2, 'ne', ln, z)
+                if h:
+                    return True, 'G1 %s() of a non-empty container: %s' % (x[1].rsplit('::', 1)[-1], _h(b, h))
             return False, 'need %s is %s' % (fmt_sym(b, x), want)
         if goal == 'index' and len(call_args) == 2:
             recv = F.sym_operand(call_args[0])
-            base = recv[1] if recv[0] == 'ref' else ('deref', recv)
+            base = deref(recv)
             ix = F.sym_operand(call_args[1])
             ity = b.locals[call_args[1][1][0]] if call_args[1][0] in ('cp', 'mv') and not call_args[1][1][1] else (call_args[1][2] if call_args[1][0] == 'k' else '')
             ln = ('len', base)
@@ -233,6 +244,17 @@ def try_auto(ctx, site):
             if ix[0] == 'agg' and ix[2].endswith('ops::RangeFull'):
                 return True, 'full range'
             return False, 'index of type %s' % (ity or fmt_sym(b, ix))
+        if goal == 'le_len' and len(call_args) == 2:
+            ln = ('len', deref(F.sym_operand(call_args[0])))
+            n = F.sym_operand(call_args[1])
+            h = F.cmp_holds(lits, 'le', n, ln)
+            if h:
+                return True, 'argument <= len: ' + _h(b, h)
+            return False, 'need %s <= %s' % (fmt_sym(b, n), fmt_sym(b, ln))
+        if goal == 'none' and g[2].endswith('::drain') and len(call_args) == 2:
+            ix = F.sym_operand(call_args[1])
+            if ix[0] == 'agg' and ix[2].endswith('ops::RangeFull'):
+                return True, 'drain(..) of the full range'
         return False, None
     return False, None
 
@@ -314,7 +336,12 @@ def run_e1(ctx, roots_pattern, rule='E1-panic', stop_pattern=None, wide=False, e
                 if prem:
                     F = ctx.facts(b)
                     have = {stable_lit(b, l) for l, e in F.literals_at(s.bb)}
-                    missing = [p for p in prem if p not in have]
+                    def holds(p):
+                        if p.startswith('re:'):
+                            rx = re.compile(p[3:])
+                            return any(rx.search(h) for h in have)
+                        return p in have
+                    missing = [p for p in prem if not holds(p)]
                     if missing:
                         r.fail(rule, s.key, '%s: reviewed disposition lost its premise `%s`' % (s.kind, missing[0]),
                                detail='reason on file: %s; reached via %s' % (d['reason'], path), loc=s.loc)
